@@ -16,7 +16,7 @@ CHECKS = {
          "Same simulator; FIFO decided from global event stamps: a value accepted (returned or registered in the wait list) before another send began is never obtained by a receive that completes before the receive of the earlier value begins; positions inside one drain.", "4 C02"),
  "C04": ("exploration", "deterministic simulation: checksummed payloads of 13 size/alignment/drop classes",
          "Every received value is compared bit-for-bit (identity + checksum over all fields, per-run bit mask) for 13 payload classes on every transfer path the scheduler produces.", "4 C04"),
- "C05": ("exploration", "deterministic simulation: drop ledger",
+ "C05": ("exploration", "deterministic simulation: drop ledger (+ Miri leak / double-free detection on heap-owning payloads)",
          "Droppable payload classes record every drop with stamp, task and enclosing operation; second drop flagged at once, missing drop at the quiescent end; Option contract of the *_option variants checked per call.", "4 C05"),
  "C06": ("exploration", "deterministic simulation: deadlock / step-bound detection on workloads that terminate by specification",
          "Role-separated workloads terminate in every schedule by specification; the engine reports a run in which no task can run (or the decision bound is exceeded) with the stuck operations and which wakers were woken.", "4 C06"),
@@ -35,13 +35,13 @@ CHECKS = {
          "Clone/drop of handles of both flavours racing with operations; a disconnect error is accepted only if the other side's handle count can have been zero during the call; after the last handle is certainly gone sends fail / receives drain then report the error.", "4 C11"),
  "C12": ("exploration", "deterministic simulation: interval bounds on observed counts",
          "sender_count/receiver_count observations must lie between the handles certainly alive and possibly alive during the observation; exact when sequential; zero for ever after close.", "4 C12"),
- "C13": ("exploration", "deterministic simulation: virtual clock with jumps, ledger and lifetime monitors",
+ "C13": ("exploration", "deterministic simulation: virtual clock with jumps, ledger and lifetime monitors (+ Miri on timed scenarios)",
          "Timed operations against peers arriving, handing off, closing or disconnecting around the deadline under three clock policies; Timeout never before the deadline (virtual time), value back/dropped exactly once, never delivered after Timeout, nothing left in the wait list (lifetime monitor), the call returns (hang oracle).", "4 C13"),
  "C14": ("exploration", "deterministic simulation: probes + own-step bound + explainability",
          "try_*/drain never register, wait or park (probes inside kanal); realtime variants return within 64 of their own decisions even with peers frozen inside the critical section; success iff the ledger shows the value moved; results explainable by the reference model.", "4 C14"),
- "C15": ("exploration", "deterministic simulation: cancellation injected at drawn decisions",
+ "C15": ("exploration", "deterministic simulation: cancellation injected at drawn decisions (+ Miri on cancellation scenarios)",
          "Futures dropped never-polled, after k polls, or a drawn number of decisions after Pending while a peer is handing off; ledger (delivered once or dropped once), lifetime monitor (no access to the dropped future), order of remaining waiters.", "4 C15"),
- "C16": ("exploration", "deterministic simulation: harness executor with spurious polls and waker replacement",
+ "C16": ("exploration", "deterministic simulation: harness executor with spurious polls and waker replacement, single futures and several futures per executor",
          "Spurious polls with the same or a fresh waker at any position, re-poll after completion (must panic), streams polled across many waits and after the end; stale-waker hangs, duplicated or invented values, order and end-of-stream stability are reported.", "4 C16"),
  "C17": ("exploration", "deterministic simulation: lock harness with overlap marks, race monitor and try_lock step bound",
          "2-4 tasks contend on the internal lock through lock/try_lock/unlock with a non-atomic read-modify-write inside; harness-level overlap marks, happens-before monitor on the cell and on consecutive critical sections, lost-update check, try_lock returns within 8 own decisions, every lock() returns (hang oracle); parallelism 1 and 4, holder stalled/frozen.", "4 C17"),
@@ -83,8 +83,8 @@ m = {
  "engines": [
    {"name": "ksim", "path": "/verif/sim", "serves_properties": sorted(CHECKS.keys()),
     "kind_free_text": "deterministic simulator: all tasks of a run are corosensei coroutines on one OS thread, a seeded scheduler (uniform / sticky / PCT + stall, freeze-in-critical-section, spurious-wake overlays) decides at every shimmed atomic / park / yield / clock read; virtual clock; harness executor with spurious polls, waker replacement and cancellation; replay files carry the explicit decision stream"},
-   {"name": "miri", "path": "/verif/native", "serves_properties": ["C04", "C07"],
-    "kind_free_text": "second, hook-free engine: 13 fixed multi-threaded scenarios against the unmodified kanal (guard off, real std threads, owning payloads) under cargo +nightly miri with many seeds (Miri's scheduler, weak-memory emulation and clock are functions of the seed); quick 32 seeds, thorough 512 seeds per scenario; replay = (scenario, seed, flags)"},
+   {"name": "miri", "path": "/verif/native", "serves_properties": ["C04", "C05", "C07", "C13", "C15"],
+    "kind_free_text": "second, hook-free engine: 26 fixed multi-threaded scenarios (C07 runs all of them, C04/C05/C13/C15 the ones that speak of their property) against the unmodified kanal (guard off, real std threads, owning payloads) under cargo +nightly miri with many seeds (Miri's scheduler, weak-memory emulation and clock are functions of the seed); quick 32 seeds, thorough 512 seeds per scenario; replay = (scenario, seed, flags)"},
  ],
  "checks": checks,
  "not_applicable": na,
